@@ -31,6 +31,8 @@ class BatchScenario:
         self.seed = kw.get("seed", 0)
         self.fault = kw.get("fault", None)             # (call index, callback ordinal)
         self.names = kw.get("names", "idx")
+        self.nlab = kw.get("nlab", 1)                  # > 1: dict outputs over several labels, the last label only for some inputs
+        self.fault_type = kw.get("fault_type", 0)
 
     def to_json(self):
         d = dict(self.__dict__)
@@ -71,12 +73,24 @@ def run(sc, tape_mode="log", script=None, provider=None):
         v = xvec(x)
         if sc.tables == "spec":
             return {"output": float(sum(((i % 2) + 1) * v[i - 1] for i in range(1, d + 1)) - 1 + v[0] * v[d - 1])}
+        if sc.nlab > 1:
+            out = {}
+            for lab in range(sc.nlab):
+                if lab == sc.nlab - 1 and v[0] < 0:
+                    continue          # label sets differ between rows of the same data set
+                out[lab] = float(sum((W[i] + lab) * v[i] for i in range(d)) + lab)
+            return out
         return {"output": float(sum(W[i] * v[i] for i in range(d)) + C * v[0] * v[-1] + 1)}
 
     def raw_loss(y, p):
         if sc.tables == "spec":
             return float((y - p["output"]) ** 2 - y)
+        if sc.nlab > 1:       # sensitive to every label, present or missing
+            return float(sum((y * (k + 1) - pv) ** 2 for k, pv in p.items()) + 2 * len(p) - y)
         return float((2 * y - p["output"]) ** 2 - y + 3)
+
+    def lab_pairs(out):
+        return sorted([[0 if k == "output" else int(k) + 1, red(v)] for k, v in out.items()])
 
     def cb(kind):
         st["cb"] += 1
@@ -92,13 +106,13 @@ def run(sc, tape_mode="log", script=None, provider=None):
             return out
         cb("model")
         out = raw_model(x)
-        st["events"].append({"k": "model", "x": [red(v) for v in xvec(x)], "out": [[0, red(out["output"])]], "imp": st["in_imp"]})
+        st["events"].append({"k": "model", "x": [red(v) for v in xvec(x)], "out": lab_pairs(out), "imp": st["in_imp"]})
         return out
 
     def loss(y_true, y_pred):
         cb("loss")
         val = raw_loss(y_true, y_pred)
-        st["events"].append({"k": "loss", "y": y_true, "pred": [[0, red(y_pred.get("output", 0))]], "val": red(val), "raw": val})
+        st["events"].append({"k": "loss", "y": y_true, "pred": lab_pairs(y_pred), "val": red(val), "raw": val})
         return val
 
     random.seed(sc.seed)
@@ -247,7 +261,7 @@ def run(sc, tape_mode="log", script=None, provider=None):
                     c["obs"].append({"x": [red(v) for v in xs], "y": y, "order": order, "perm": b["perm"] or [],
                                      "L": b["L"], "Lraw": b["Lraw"], "lmodel_raw": raw_loss(y, raw_out),
                                      "preds": b["preds"], "outs": outs, "ins": ins,
-                                     "lmodel": red(raw_loss(y, raw_out)), "lmodel_pred": [[0, red(raw_out["output"])]]})
+                                     "lmodel": red(raw_loss(y, raw_out)), "lmodel_pred": lab_pairs(raw_out)})
                 c["exact"] = _is_pow2(m) and _is_pow2(c["n"] or 1)
             except (ValueError, IndexError, KeyError) as e:
                 c["shape_ok"] = False
